@@ -24,7 +24,14 @@ def traced_many(args: list[dict]) -> list[dict]:
     from .. import impl_es
     out = []
     for a in args:
-        d = impl_es.decompile_traced(a)
+        if a.get("twice"):
+            # the answer of a second convert() of the same decompiler object (no writer trace: the per-entry clauses only)
+            d = impl_es.decompile({"rs": a["rs"], "ssbs": a.get("ssbs", False), "twice": True})
+            if "error" not in d:
+                d["log"] = None
+                d["fallback"] = "is-ssb-script" in d["text"].split("\n", 1)[0]
+        else:
+            d = impl_es.decompile_traced(a)
         if "error" not in d:
             d["recompiled"] = impl_es.compile_text({"text": d["text"]})
         out.append(d)
@@ -164,6 +171,8 @@ def run(run: core.Run) -> int:
                                     break
             cnt["unicode_line_separator_in_string"] += int(done)
         args = [{"rs": s["rs"], "ssbs": False} for s in sets] + [{"rs": s["rs"], "ssbs": True} for s in sets[: len(sets) // 3]]
+        for i, a in enumerate(args):
+            a["twice"] = (i % 7 == 6) and not a["ssbs"]
         chunks = [args[i:i + 8] for i in range(0, len(args), 8)]
         outs = pool.map("harness.props.c09:traced_many", chunks, timeout=60)
     finally:
@@ -177,7 +186,7 @@ def run(run: core.Run) -> int:
         if "error" in d:
             cnt["decompiler_error"] += 1
             continue
-        if a["ssbs"] or not d.get("fallback"):
+        if (a["ssbs"] or not d.get("fallback")) and d.get("log") is not None:
             # (a fallback is written by an inner SsbScript decompiler object; that writer is covered by the ssbs runs)
             reqs.append({"op": "writer.replay", "cmds": d["log"]})
             idx.append((i, "replay"))
